@@ -72,10 +72,12 @@ enum Outc {
     EN,
     ET,
     EF,
+    /// get only: the call reports success, the bytes returned are damaged in transit
+    GB,
 }
 impl Outc {
     fn term(self) -> &'static str {
-        match self { Outc::Ok => "OK", Outc::EN => "EN", Outc::ET => "ET", Outc::EF => "EF" }
+        match self { Outc::Ok => "OK", Outc::EN => "EN", Outc::ET => "ET", Outc::EF => "EF", Outc::GB => "GB" }
     }
 }
 #[derive(Clone, Debug, PartialEq, Eq)]
@@ -165,6 +167,15 @@ struct Inner {
     /// snapshots[j] = the map after j calls
     snapshots: Vec<Map>,
     head_calls: usize,
+    /// what a damaged read did (position, verdict), and whether a damaged image decoded to
+    /// different deltas
+    garble_notes: Vec<String>,
+    undetected: Option<String>,
+}
+fn decode_seg(d: &[u8]) -> Option<Vec<ReplicationDelta>> {
+    let rd = SegmentReader::open(d).ok()?;
+    rd.validate().ok()?;
+    rd.read_all().ok()
 }
 impl Inner {
     fn begin(&mut self) -> Option<Fault> {
@@ -216,6 +227,12 @@ impl ScriptedStore {
     fn head_calls(&self) -> usize {
         self.inner.lock().unwrap().head_calls
     }
+    fn garble_notes(&self) -> Vec<String> {
+        self.inner.lock().unwrap().garble_notes.clone()
+    }
+    fn undetected(&self) -> Option<String> {
+        self.inner.lock().unwrap().undetected.clone()
+    }
 }
 impl ObjectStore for ScriptedStore {
     fn put<'a>(&'a self, key: &'a str, data: &'a [u8]) -> Pin<Box<dyn Future<Output = IoResult<()>> + Send + 'a>> {
@@ -247,6 +264,30 @@ impl ObjectStore for ScriptedStore {
             let mut g = self.inner.lock().unwrap();
             let (o, res) = match g.begin() {
                 None => (Outc::Ok, g.map.get(key).map(|d| d.as_ref().clone()).ok_or_else(|| not_found(key))),
+                // a "torn" fault on the GET of a segment: the bytes arrive with one bit flipped,
+                // the object at rest is untouched
+                Some(Fault::ErrTorn(cut)) if matches!(Name::of(key), Name::Seg(_)) && g.map.get(key).map_or(false, |d| !d.is_empty()) => {
+                    let mut buf = g.map.get(key).map(|d| d.as_ref().clone()).unwrap_or_default();
+                    let clean = decode_seg(&buf);
+                    let pos = (cut.wrapping_mul(2654435761)) % buf.len();
+                    buf[pos] ^= 1u8 << (cut % 8);
+                    let seen = decode_seg(&buf);
+                    let same = match (&clean, &seen) {
+                        (Some(a), Some(b)) => a.len() == b.len() && a.iter().zip(b.iter()).all(|(x, y)| x.key == y.key && x.source_replica == y.source_replica && obs(&x.value) == obs(&y.value)),
+                        _ => false,
+                    };
+                    let what = format!("get of {}: bit {} of byte {} of {} flipped in the returned buffer, object at rest intact", key, cut % 8, pos, buf.len());
+                    if seen.is_none() {
+                        g.garble_notes.push(format!("{}: rejected", what));
+                        (Outc::GB, Ok(buf))
+                    } else if same {
+                        g.garble_notes.push(format!("{}: harmless", what));
+                        (Outc::Ok, Ok(buf))
+                    } else {
+                        g.undetected = Some(format!("{}: passes open+validate and decodes to different deltas", what));
+                        (Outc::Ok, Ok(buf))
+                    }
+                }
                 Some(_) => (Outc::EN, Err(injected())),
             };
             g.end(CallDesc::Get(Name::of(key)), o);
@@ -682,7 +723,7 @@ fn main() {
     let rich = args.get("rich", 0) != 0;
     let verbose = args.only.is_some();
     let mut out = Out::new(&args.out, "C12", args.shards, HEADER);
-    out.nontrivial_rule = "case i = workload (i/128) under fault placement (i%128): 3-5 rounds of 1-3 pushes + flush (sometimes a second flush, sometimes an empty one, small backpressure thresholds in 15%), 1-2 compactions after round 2 or later, deltas issued by three real ShardReplicaStates over keys k/j/h; placement 0 = fault free, 1..120 = one fault (no effect / torn put / full put reported as error) at call (p-1)/3, 121..127 = 2-4 random faults; every call boundary is a crash instant; non-trivial = at least one flush returned Ok and (a fault fired or a compaction returned Ok); distinct by workload + call log".into();
+    out.nontrivial_rule = "case i = workload (i/128) under fault placement (i%128): 3-5 rounds of 1-3 pushes + flush (sometimes a second flush, sometimes an empty one, small backpressure thresholds in 15%), 1-2 compactions after round 2 or later, deltas issued by three real ShardReplicaStates over keys k/j/h; placement 0 = fault free, 1..120 = one fault (no effect / torn put - on the GET of a segment instead: the bytes arrive with one bit flipped, object at rest intact (GB) - / full put reported as error) at call (p-1)/3, 121..127 = 2-4 random faults; every call boundary is a crash instant; non-trivial = at least one flush returned Ok and (a fault fired or a compaction returned Ok); distinct by workload + call log".into();
     std::panic::set_hook(Box::new(|_| {}));
     let rt = tokio::runtime::Builder::new_current_thread().enable_all().build().unwrap();
     let range: Vec<u64> = match args.only { Some(i) => vec![i], None => (0..args.n).collect() };
@@ -716,7 +757,9 @@ fn main() {
         if (1..=120).contains(&p) {
             let c = ((p - 1) / 3) as usize;
             let kind = (p - 1) % 3;
-            if c >= ff_log.len() || (kind != 0 && ff_log[c].0.kind() != "put") {
+            // ET/EF apply to puts; ET on the GET of a segment = the bytes arrive damaged (GB)
+            let seg_get = c < ff_log.len() && kind == 1 && matches!(ff_log[c].0, CallDesc::Get(Name::Seg(_)));
+            if c >= ff_log.len() || (kind != 0 && ff_log[c].0.kind() != "put" && !seg_get) {
                 out.count("skipped:placement-not-applicable");
                 if verbose {
                     println!("case {}: placement {} (call {}, kind {}) not applicable: the fault-free run makes {} calls{}", i, p, c, kind, ff_log.len(), ff_log.get(c).map(|l| format!(", call {} is a {}", c, l.0.kind())).unwrap_or_default());
@@ -846,6 +889,39 @@ fn main() {
             out.violation(i, V_COUNT, base(json!({"op_index": n, "pending_before": before, "deltas_flushed": reported})));
         }
         out.impl_checks += ro.results.iter().filter(|r| matches!(r, Res::Flush(Some(_), _))).count() as u64;
+
+        // ---- oracle (f): a damaged read never makes data disappear silently
+        if let Some(u) = store.undetected() {
+            out.count("violation:a damaged segment image decodes to different deltas");
+            out.violation(i, "a damaged segment image passes SegmentReader::open and validate and decodes to different deltas", base(json!({"what": u})));
+        }
+        for n in store.garble_notes() {
+            out.count(if n.ends_with("rejected") { "garbled-get:rejected" } else { "garbled-get:harmless" });
+        }
+        if let Some(last) = snaps.last() {
+            let sig = |ds: &[ReplicationDelta]| -> Vec<String> { ds.iter().map(|d| format!("{}@{}#{}", d.key, obs(&d.value), d.source_replica.0)).collect() };
+            let clean = rt.block_on(RecoveryManager::new(ScriptedStore::healthy(last.clone()), PREFIX, 1).recover());
+            if let Ok(cl) = clean {
+                let want = sig(&cl.deltas);
+                let nseg = cl.manifest.segments.len().min(6);
+                for k in 1..=nseg {
+                    let st = ScriptedStore::healthy(last.clone());
+                    let mut sc: HashMap<usize, Fault> = HashMap::new();
+                    sc.insert(k, Fault::ErrTorn(prng.gen_range(0..100_000)));
+                    st.arm(sc);
+                    let r = rt.block_on(RecoveryManager::new(st.clone(), PREFIX, 1).recover());
+                    out.impl_checks += 1;
+                    match r {
+                        Err(_) => out.count("recovery-with-damaged-read:Err"),
+                        Ok(rs) if sig(&rs.deltas) == want => out.count("recovery-with-damaged-read:Ok-unaffected"),
+                        Ok(rs) => {
+                            out.count("violation:recovery with a damaged read silently returned different deltas");
+                            out.violation(i, "recovery with a damaged read of a segment returned Ok with different deltas", base(json!({"damaged_read": st.garble_notes(), "clean": want, "got": sig(&rs.deltas)})));
+                        }
+                    }
+                }
+            }
+        }
 
         // ---- oracles (a) (b) (c) at every crash instant
         let conf_obs: Vec<String> = ro.confirmed.iter().map(|(_, d)| obs(&d.value)).collect();
